@@ -1,8 +1,30 @@
-(* C01: the slot machine of Scope/SlotSem.v simulates the reference interpreter Core/Sem.v.
+(* C01: the slot machine of Scope/SlotSem.v simulates the reference interpreter Core/Sem.v (DESIGN 4/C01 `slots_sim`).
+
+   PROVED (no axioms):
+     slots_sim_partial : forall fuel prog sp,
+       resolve_prog prog = Some sp -> compr_vars_uncaptured prog = true ->
+       (forall ln, snd (run_program fuel prog) <> Failed Unbound ln) ->
+       run_slot_program fuel sp = run_program fuel prog
+     (equal transcript and outcome, with the SAME fuel), together with slots_sim_strict (the same with the strict resolver)
+     and strict_prog (the strict resolver produces what resolve_prog produces).
+   The fragment is every MiniStar program whose names resolve, except that no lambda may capture a COMPREHENSION variable;
+   it includes closures capturing locals/parameters/loop variables of any enclosing def (cells shared between the frame and
+   the closures, allocated lazily), comprehension scoping, module variables, recursion, *args/**kwargs, defaults.
+   FULL statement (slots_sim): forall fuel prog sp, resolve_prog prog = Some sp -> run_slot_program fuel sp = run_program fuel prog.
+   It is REFUTED for the faithful machine (slots_sim_refuted, slots_sim_unbound_needed): the evaluator never clears or
+   re-allocates the frame slot of a comprehension variable, so (1) the cell of a captured comprehension variable is shared by all
+   evaluations of the comprehension in one activation, (2) a comprehension variable read before its assignment sees the value
+   left by the previous evaluation.  Both were reproduced on the real evaluator (see the end of this file).
+
+   State relation: values, list/dict/closure addresses and the transcript are EQUAL on both sides; the reference cell of a
+   name corresponds to its module slot, to its frame slot (plain local: the slot holds the value whenever the cell is set), or -
+   for a captured local - to the machine cell `rho` relates it to (the slot holds that cell, or is still empty while the
+   reference cell is unset and unrelated).  Closures are related when the machine closure is the resolution of the reference
+   closure's code in a scope whose copied variables are `rho`-related to the cells of the captured environment.
    Part A: every value-level operation of Core reads and writes only lists / dicts / transcript.
    Part B: the state relation and the generic simulation lemmas.
    Part C: variables, targets, comprehension scopes, closures, calls.
-   Part D: the simulation by induction on the fuel; whole programs. *)
+   Part D: the simulation by induction on the fuel; whole programs; the strict resolver; the refutation. *)
 From Coq Require Import ZArith String List Bool Arith Lia.
 From SV Require Import Core.Syntax Core.Values Core.Slice Core.Sem Core.SemProofs Scope.Tree.
 From SV Require Scope.Proofs.
@@ -773,6 +795,13 @@ Section Gen.
     intros H r s t G HI.
     assert (E : (s0 <- get_state ;; f (truth s0 x)) s = bind (s0 <- get_state ;; ret (truth s0 x)) f s) by reflexivity.
     rewrite E. unfold struth. apply sim_bind; [apply sim_lift, pure_truth|exact H|exact G|exact HI].
+  Qed.
+  Lemma sim_truth_if {A} x (A1 A2 : M A) (B1 B2 : SM A) :
+    sim A1 B1 -> sim A2 B2 ->
+    sim (s <- get_state ;; if truth s x then A1 else A2) (sbind (struth x) (fun b => if b then B1 else B2)).
+  Proof.
+    intros H1 H2. apply (sim_truth x (fun b => if b then A1 else A2) (fun b => if b then B1 else B2)).
+    intros [|]; assumption.
   Qed.
 End Gen.
 
@@ -2083,7 +2112,7 @@ Lemma nodupb_NoDup l : nodupb l = true -> NoDup l.
 Proof.
   unfold nodupb. intros H. apply Nat.eqb_eq in H.
   apply NoDup_incl_NoDup with (l := dedup l); [apply Proofs.dedup_NoDup|lia|].
-  intros x Hx. apply Proofs.dedup_In in Hx. exact Hx.
+  intros x Hx. apply (proj1 (Proofs.dedup_In l x)). exact Hx.
 Qed.
 
 Lemma pure_sorted_tail (named : list (string * value)) (ks xs : list value) :
@@ -2112,3 +2141,683 @@ Lemma pure_dict_acc acc k v : pure_op (match acc with
 Proof. destruct acc; pure_auto. Qed.
 Lemma pure_dict_lit ps : pure_op (s <- get_state ;; alloc_dict (dict_update s [] ps)).
 Proof. pure_auto. Qed.
+
+Ltac inv_c H :=
+  repeat match type of H with
+         | match ?x with Some _ => _ | None => _ end = Some _ =>
+             let E := fresh "E" in let p := fresh "p" in
+             destruct x as [p|] eqn:E; [repeat match goal with q : (_ * _)%type |- _ => destruct q end|discriminate H]
+         | (if ?b then _ else _) = Some _ => let E := fresh "E" in destruct b eqn:E; [|discriminate H]
+         end;
+  inversion H; subst; clear H.
+
+Ltac sb := apply sim_bind; [apply okF| |intro].
+Ltac sret_ := apply sim_ret; apply okF.
+Ltac slift := apply sim_lift; [apply okF|].
+
+Section Step.
+  Variable n : nat.
+  Hypothesis IHe : simE n.
+  Hypothesis IHc : simC n.
+  Hypothesis IHx : simX n.
+
+  Lemma sE_list sc en k es es' k' :
+    omapS (cexprT sc) k es = Some (es', k') -> simF en sc (mapM (eval n en) es) (smapM (seval n) es').
+  Proof.
+    intros H. apply omapS_Forall2 in H. eapply sim_mapM2; [apply okF|exact H|].
+    intros e e' (k1 & k2 & He). eapply IHe; eauto.
+  Qed.
+
+  Lemma sE_kwargs sc en k (kws : list (string * expr)) kws' k' :
+    omapS (fun k kv => match cexprT sc k (snd kv) with Some (v, k') => Some ((fst kv, v), k') | None => None end) k kws = Some (kws', k') ->
+    simF en sc (mapM (fun kv => v <- eval n en (snd kv) ;; ret (fst kv, v)) kws)
+               (smapM (fun kv => v <~ seval n (snd kv) ;; sret (fst kv, v)) kws').
+  Proof.
+    intros H. apply omapS_Forall2 in H. eapply sim_mapM2; [apply okF|exact H|].
+    intros kv kv' (k1 & k2 & He). cbv beta in He. destruct (cexprT sc k1 (snd kv)) as [[v' k3]|] eqn:E; [|discriminate].
+    inversion He; subst. cbn [fst snd]. sb; [eapply IHe; eauto|]. sret_.
+  Qed.
+
+  Lemma sE_dict sc en k (kvs : list (expr * expr)) kvs' k' :
+    omapS (fun k kv => match cexprT sc k (fst kv) with
+                       | Some (a, k1) => match cexprT sc k1 (snd kv) with Some (b, k2) => Some ((a, b), k2) | None => None end
+                       | None => None end) k kvs = Some (kvs', k') ->
+    simF en sc (mapM (fun kv => k <- eval n en (fst kv) ;; v <- eval n en (snd kv) ;; check_hashable k ;;; ret (k, v)) kvs)
+               (smapM (fun kv => k <~ seval n (fst kv) ;; v <~ seval n (snd kv) ;; lift (check_hashable k) ;;~ sret (k, v)) kvs').
+  Proof.
+    intros H. apply omapS_Forall2 in H. eapply sim_mapM2; [apply okF|exact H|].
+    intros kv kv' (k1 & k2 & He). cbv beta in He. destruct (cexprT sc k1 (fst kv)) as [[a' k3]|] eqn:E1; [|discriminate].
+    destruct (cexprT sc k3 (snd kv)) as [[b' k4]|] eqn:E2; [|discriminate]. inversion He; subst. cbn [fst snd].
+    sb; [eapply IHe; eauto|]. sb; [eapply IHe; eauto|]. sb; [slift; apply pure_check_hashable|]. sret_.
+  Qed.
+
+  Lemma sE_params sc en k ps ps' k' :
+    omapS (cparam true mods sc) k ps = Some (ps', k') ->
+    simF en sc (mapM (fun p => match p with PNormal x (Some d) => v <- eval n en d ;; ret [(x, v)] | _ => ret [] end) ps)
+               (smapM (fun p => match p with SPNormal x (Some d) => v <~ seval n d ;; sret [(x, v)] | _ => sret [] end) ps').
+  Proof.
+    intros H. apply omapS_Forall2 in H. eapply sim_mapM2; [apply okF|exact H|].
+    intros p p' (k1 & k2 & He). rewrite cp_eq in He. destruct p as [x [d|]|x|x].
+    - destruct (cexprT sc k1 d) as [[d' k3]|] eqn:E; [|discriminate]. inversion He; subst. sb; [eapply IHe; eauto|]. sret_.
+    - inversion He; subst. sret_.
+    - inversion He; subst. sret_.
+    - inversion He; subst. sret_.
+  Qed.
+
+  Lemma sE_opt sc en k o o' k' :
+    copt (cexprT sc) k o = Some (o', k') ->
+    simF en sc (match o with None => ret None | Some e => v <- eval n en e ;; ret (Some v) end)
+               (match o' with None => sret None | Some e => v <~ seval n e ;; sret (Some v) end).
+  Proof.
+    unfold copt. destruct o as [e|]; intros H.
+    - destruct (cexprT sc k e) as [[e' k1]|] eqn:E; [|discriminate]. inversion H; subst. sb; [eapply IHe; eauto|]. sret_.
+    - inversion H; subst. sret_.
+  Qed.
+
+  Lemma sE_star sc en k o o' k' :
+    copt (cexprT sc) k o = Some (o', k') ->
+    simF en sc (match o with None => ret [] | Some e => v <- eval n en e ;; iter_elems v end)
+               (match o' with None => sret [] | Some e => v <~ seval n e ;; lift (iter_elems v) end).
+  Proof.
+    unfold copt. destruct o as [e|]; intros H.
+    - destruct (cexprT sc k e) as [[e' k1]|] eqn:E; [|discriminate]. inversion H; subst. sb; [eapply IHe; eauto|].
+      slift. apply pure_iter_elems.
+    - inversion H; subst. sret_.
+  Qed.
+
+  Lemma sE_dstar sc en k o o' k' :
+    copt (cexprT sc) k o = Some (o', k') ->
+    simF en sc (match o with
+                | None => ret []
+                | Some e => v <- eval n en e ;;
+                            match v with
+                            | VDict d => kvs <- get_dict d ;;
+                                         mapM (fun kv => match fst kv with VStr k => ret (k, snd kv) | _ => fail TypeErr end) kvs
+                            | _ => fail TypeErr end
+                end)
+               (match o' with
+                | None => sret []
+                | Some e => v <~ seval n e ;;
+                            lift (match v with
+                                  | VDict d => kvs <- get_dict d ;;
+                                               mapM (fun kv => match fst kv with VStr k => ret (k, snd kv) | _ => fail TypeErr end) kvs
+                                  | _ => fail TypeErr end)
+                end).
+  Proof.
+    unfold copt. destruct o as [e|]; intros H.
+    - destruct (cexprT sc k e) as [[e' k1]|] eqn:E; [|discriminate]. inversion H; subst. sb; [eapply IHe; eauto|].
+      slift. apply pure_dstar.
+    - inversion H; subst. sret_.
+  Qed.
+
+  Lemma sX_block sc en k ss ss' k' :
+    omapS (cstmtT sc) k ss = Some (ss', k') -> simF en sc (run_block (exec n en) ss) (srun_block (sexec n) ss').
+  Proof.
+    intros H. apply omapS_Forall2 in H. apply sim_run_block; [apply okF|].
+    eapply Forall2_impl'; [|exact H]. intros st st' (k1 & k2 & Hst). eapply IHx; eauto.
+  Qed.
+
+  Lemma step_expr : simE (S n).
+  Proof.
+    intros sc k e e' k' en H. destruct e.
+    - rewrite ce_ENone in H. inv_c H. cbn [eval seval]. sret_.
+    - rewrite ce_EBool in H. inv_c H. cbn [eval seval]. sret_.
+    - rewrite ce_EInt in H. inv_c H. cbn [eval seval]. sret_.
+    - rewrite ce_EStr in H. inv_c H. cbn [eval seval]. sret_.
+    - rewrite ce_EVar in H. inv_c H. cbn [seval]. apply sim_load. assumption.
+    - rewrite ce_ETuple in H. inv_c H. cbn [eval seval]. sb; [eapply sE_list; eauto|]. sret_.
+    - rewrite ce_EList in H. inv_c H. cbn [eval seval]. sb; [eapply sE_list; eauto|]. slift. apply pure_alloc_list.
+    - rewrite ce_EDict in H. inv_c H. cbn [eval seval]. sb; [eapply sE_dict; eauto|]. slift. apply pure_dict_lit.
+    - rewrite ce_EUn in H. inv_c H. cbn [eval seval]. sb; [eapply IHe; eauto|]. slift. apply pure_unop_eval.
+    - rewrite ce_EBin in H. inv_c H. cbn [eval seval]. sb; [eapply IHe; eauto|]. sb; [eapply IHe; eauto|]. slift. apply pure_binop_eval.
+    - rewrite ce_EAnd in H. inv_c H. cbn [eval seval]. sb; [eapply IHe; eauto|].
+      apply sim_truth_if; [apply okF|eapply IHe; eauto|sret_].
+    - rewrite ce_EOr in H. inv_c H. cbn [eval seval]. sb; [eapply IHe; eauto|].
+      apply sim_truth_if; [apply okF|sret_|eapply IHe; eauto].
+    - rewrite ce_EIf in H. inv_c H. cbn [eval seval]. sb; [eapply IHe; eauto|].
+      apply sim_truth_if; [apply okF|eapply IHe; eauto|eapply IHe; eauto].
+    - rewrite ce_EIndex in H. inv_c H. cbn [eval seval]. sb; [eapply IHe; eauto|]. sb; [eapply IHe; eauto|]. slift. apply pure_index_eval.
+    - rewrite ce_ESlice in H. inv_c H. cbn [eval seval]. sb; [eapply IHe; eauto|].
+      sb; [eapply sE_opt; eauto|]. sb; [eapply sE_opt; eauto|]. sb; [eapply sE_opt; eauto|]. slift. apply pure_slice_eval.
+    - rewrite ce_ECall in H. inv_c H. cbn [eval seval]. sb; [eapply IHe; eauto|]. sb; [eapply sE_list; eauto|].
+      sb; [eapply sE_kwargs; eauto|]. sb; [eapply sE_star; eauto|]. sb; [eapply sE_dstar; eauto|].
+      apply csim_simF. apply IHc.
+    - rewrite ce_EMeth in H. inv_c H. cbn [eval seval]. sb; [eapply IHe; eauto|]. sb; [eapply sE_list; eauto|].
+      sb; [eapply sE_kwargs; eauto|]. slift. apply pure_call_method_kw.
+    - rewrite ce_ELambda in H. cbv zeta in H. inv_c H. cbn [eval seval]. sb; [eapply sE_params; eauto|].
+      eapply sim_make_closure; cbn [di_parents di_names di_wrap di_nslots]; eauto.
+      + eapply erase_param_of; eauto.
+      + apply nodupb_NoDup. assumption.
+      + intros x. cbn [locals_of]. rewrite app_nil_r. apply Proofs.dedup_In.
+      + apply Proofs.dedup_NoDup.
+    - rewrite ce_EListComp in H. destruct cls as [|[t0 e0|c0] r]; try discriminate. cbv zeta in H. inv_c H.
+      cbn [eval seval]. sb; [eapply IHe; eauto|]. sb; [slift; apply pure_iter_elems|].
+      eapply sim_compr; [eassumption|]. intros new Hf.
+      sb; [slift; apply pure_alloc_list|]. sb; [|sret_].
+      apply sim_with_lock; [apply okF|].
+      apply sim_comp_first.
+      + intros k0 e1 e1' k0' He. eapply IHe; eauto.
+      + eauto.
+      + eapply omapS_Forall2; eauto.
+      + sb; [eapply IHe; eauto|]. slift. apply pure_list_acc.
+    - rewrite ce_EDictComp in H. destruct cls as [|[t0 e0|c0] r]; try discriminate. cbv zeta in H. inv_c H.
+      cbn [eval seval]. sb; [eapply IHe; eauto|]. sb; [slift; apply pure_iter_elems|].
+      eapply sim_compr; [eassumption|]. intros new Hf.
+      sb; [slift; apply pure_alloc_dict|]. sb; [|sret_].
+      apply sim_with_lock; [apply okF|].
+      apply sim_comp_first.
+      + intros k0 e1' e1'' k0' He. eapply IHe; eauto.
+      + eauto.
+      + eapply omapS_Forall2; eauto.
+      + sb; [eapply IHe; eauto|]. sb; [eapply IHe; eauto|]. sb; [slift; apply pure_check_hashable|]. slift. apply pure_dict_acc.
+  Qed.
+
+  Lemma step_stmt : simX (S n).
+  Proof.
+    intros sc k st st' k' en H. destruct st; cbn [cstmt] in H.
+    - inv_c H. cbn [exec sexec stmt_line sstmt_line]. apply sim_at_line. sb; [eapply IHe; eauto|]. sret_.
+    - inv_c H. cbn [exec sexec stmt_line sstmt_line]. apply sim_at_line. sb; [eapply IHe; eauto|].
+      sb; [eapply sim_assign; [|eassumption]; intros; eapply IHe; eauto|]. sret_.
+    - inv_c H. cbn [exec sexec stmt_line sstmt_line]. apply sim_at_line.
+      destruct t as [x|ts|a i].
+      + rewrite ct_TVar in E. destruct (cvar mods sc x) as [w|] eqn:Ec; [|discriminate]. inversion E; subst.
+        sb; [eapply (IHe sc 0); rewrite ce_EVar, Ec; reflexivity|]. sb; [eapply IHe; eauto|].
+        sb; [slift; apply pure_aug_result|].
+        sb; [eapply sim_assign with (k := 0); [|rewrite ct_TVar, Ec; reflexivity]; intros; eapply IHe; eauto|]. sret_.
+      + rewrite ct_TTuple in E. destruct (omapS (ctarget true mods sc) k ts) as [[ts' k1]|]; [|discriminate]. inversion E; subst.
+        apply sim_fail.
+      + rewrite ct_TIndex in E. destruct (cexprT sc k a) as [[a' k1]|] eqn:Ea; [|discriminate].
+        destruct (cexprT sc k1 i) as [[i' k2]|] eqn:Ei; [|discriminate]. inversion E; subst.
+        sb; [eapply IHe; eauto|]. sb; [eapply IHe; eauto|]. sb; [slift; apply pure_index_eval|]. sb; [eapply IHe; eauto|].
+        sb; [slift; apply pure_aug_result|]. sb; [slift; apply pure_set_index|]. sret_.
+    - inv_c H. cbn [exec sexec stmt_line sstmt_line]. apply sim_at_line. sb; [eapply IHe; eauto|].
+      apply sim_truth_if; [apply okF|eapply sX_block; eauto|eapply sX_block; eauto].
+    - inv_c H. cbn [exec sexec stmt_line sstmt_line]. apply sim_at_line. sb; [eapply IHe; eauto|].
+      sb; [slift; apply pure_iter_elems|]. apply sim_with_lock; [apply okF|]. apply sim_for_loop; [apply okF|]. intros v.
+      sb; [eapply sim_assign; [|eassumption]; intros; eapply IHe; eauto|]. eapply sX_block; eauto.
+    - inv_c H. cbn [exec sexec stmt_line sstmt_line]. apply sim_at_line. sret_.
+    - inv_c H. cbn [exec sexec stmt_line sstmt_line]. apply sim_at_line. sret_.
+    - destruct e as [e|].
+      + inv_c H. cbn [exec sexec stmt_line sstmt_line]. apply sim_at_line. sb; [eapply IHe; eauto|]. sret_.
+      + inv_c H. cbn [exec sexec stmt_line sstmt_line]. apply sim_at_line. sret_.
+    - inv_c H. cbn [exec sexec stmt_line sstmt_line]. apply sim_at_line. sret_.
+    - cbv zeta in H. inv_c H. cbn [exec sexec stmt_line sstmt_line]. apply sim_at_line.
+      sb; [eapply sE_params; eauto|].
+      sb; [|sb; [cbn [assign]; apply sim_store; assumption|]; sret_].
+      eapply sim_make_closure; cbn [di_parents di_names di_wrap di_nslots];
+        [ eapply erase_param_of; eassumption
+        | apply nodupb_NoDup; assumption
+        |
+        |
+        | eassumption
+        | reflexivity
+        | reflexivity
+        | cbn [body_compiled]; eassumption ].
+      + intros x. cbn [locals_of]. rewrite in_app_iff. apply Proofs.def_scope_names_spec.
+      + unfold def_scope_names. destruct (Proofs.collect_stmts_ok body (dedup (map param_name ps))) as (_ & _ & ND). apply ND. apply Proofs.dedup_NoDup.
+  Qed.
+
+  Lemma step_call : simC (S n).
+  Proof.
+    intros f pos named. destruct f; cbn [call scall]; try (apply sim_fail).
+    - (* a closure *)
+      intros r s t G _. unfold bind at 1. unfold sbind at 1. unfold get_clo, sget_clo.
+      destruct (nth_error (clos s) c) as [cl|] eqn:Ecl.
+      + destruct (nth_error (sclos t) c) as [scl|] eqn:Escl.
+        2:{ exfalso. apply nth_error_None in Escl. assert (c < length (clos s)) by (apply nth_error_Some; congruence).
+            rewrite (g_clen _ _ _ G) in H. lia. }
+        pose proof (g_clos _ _ _ G c cl scl Ecl Escl) as CR.
+        assert (Hpar : sc_params scl = map erase_default (c_params cl) /\ sc_defaults scl = c_defaults cl) by (destruct CR; auto).
+        destruct Hpar as [Hp1 Hp2]. rewrite Hp1, Hp2, bind_params_erase, has_kwargs_erase.
+        destruct (bind_params (c_params cl) (c_defaults cl) pos named false) as [[[binds rest_pos] rest_named]|] eqn:Eb;
+          [|apply sim_fail; [exact G|exact Logic.I]].
+        destruct rest_pos; [|apply sim_fail; [exact G|exact Logic.I]].
+        assert (Hbn : forall b, In b binds -> In (fst b) (map param_name (c_params cl))) by (eapply bind_params_names; eauto).
+        destruct (has_kwargs (c_params cl)) as [kwx|] eqn:Ek.
+        * (* **kwargs: the dict is allocated first *)
+          unfold bind at 1. unfold sbind at 1. unfold bind at 1. unfold sbind at 1.
+          pose proof (sim_lift noframe nocells FPc (alloc_dict (map (fun kv => (VStr (fst kv), snd kv)) rest_named))
+                        (pure_alloc_dict _) r s t G Logic.I) as HL. unfold rres in HL.
+          destruct (alloc_dict (map (fun kv => (VStr (fst kv), snd kv)) rest_named) s) as [d s1|? ? ?|] eqn:Ed; [|discriminate Ed|discriminate Ed].
+          destruct (lift (alloc_dict (map (fun kv => (VStr (fst kv), snd kv)) rest_named)) t) as [d' t1|? ? ?|]; try contradiction.
+          destruct HL as [<- (r1 & G1 & _ & P1 & Q1)]. cbn [ret sret].
+          eapply rres_compose; [apply okC|exact P1|exact Q1|].
+          assert (CR1 : clo_rel r1 (length (cells s1)) cl scl).
+          { eapply clo_rel_mono; [apply (p_sub _ _ _ _ _ P1)|apply (p_len _ _ _ _ _ P1)|exact CR]. }
+          apply (call_clo_body n cl scl (binds ++ [(kwx, d)]) r1 s1 t1 IHe IHx G1 CR1).
+          intros b Hb. apply in_app_or in Hb. destruct Hb as [Hb|[<-|[]]]; [auto|]. apply has_kwargs_In. exact Ek.
+        * destruct rest_named; [|apply sim_fail; [exact G|exact Logic.I]].
+          unfold bind at 1. unfold sbind at 1. cbn [ret sret].
+          apply (call_clo_body n cl scl (binds ++ []) r s t IHe IHx G CR).
+          intros b Hb. rewrite app_nil_r in Hb. auto.
+      + destruct (nth_error (sclos t) c) as [scl|] eqn:Escl.
+        { exfalso. apply nth_error_None in Ecl. assert (c < length (sclos t)) by (apply nth_error_Some; congruence).
+          rewrite (g_clen _ _ _ G) in Ecl. lia. }
+        cbn. split; [reflexivity|]. split; [reflexivity|]. apply (g_out _ _ _ G).
+    - (* a builtin *)
+      destruct (String.eqb b "sorted" && match named with [] => false | _ :: _ => true end).
+      + destruct (forallb _ named); [|apply sim_fail].
+        destruct pos as [|v [|? ?]]; try apply sim_fail.
+        apply sim_bind; [apply okC|apply sim_lift; [apply okC|apply pure_iter_elems]|]. intros xs.
+        apply sim_bind; [apply okC| |].
+        * destruct (assoc_str "key" named) as [[]|]; try (apply sim_ret; apply okC);
+            (apply sim_mapM; [apply okC|]; intros x; apply IHc).
+        * intros ks. apply sim_lift; [apply okC|]. apply pure_sorted_tail.
+      + apply sim_lift; [apply okC|]. apply pure_call_builtin.
+  Qed.
+End Step.
+
+Theorem sim_all : forall n, simE n /\ simC n /\ simX n.
+Proof.
+  induction n as [|n (IHe & IHc & IHx)].
+  - split; [|split].
+    + intros sc k e e' k' en _ r s t _ _. exact Logic.I.
+    + intros f pos named r s t _ _. exact Logic.I.
+    + intros sc k st st' k' en _ r s t _ _. exact Logic.I.
+  - split; [apply step_expr|split; [apply step_call|apply step_stmt]]; assumption.
+Qed.
+
+Lemma sim_block fuel sc k ss ss' k' en :
+  omapS (cstmtT sc) k ss = Some (ss', k') -> simF en sc (run_block (exec fuel en) ss) (srun_block (sexec fuel) ss').
+Proof. destruct (sim_all fuel) as (IHe & IHc & IHx). apply sX_block. exact IHx. Qed.
+
+End Sim.
+
+(* ================================================================================================================ *)
+(* whole programs *)
+Definition no_rho : rho := fun _ _ => False.
+
+Lemma lookup_seq_some x names new m k : map fst new = names -> map snd new = seq k m -> In x names ->
+  exists a, lookup x new = Some a /\ k <= a < k + m.
+Proof.
+  intros Hf Hs Hin. pose proof (lookup_new x new names Hf) as Hl. destruct (sidx x names) eqn:E.
+  - destruct Hl as (a & La & Ha). exists a. split; [exact La|]. rewrite Hs in Ha. apply in_seq in Ha. exact Ha.
+  - apply sidx_none in E. contradiction.
+Qed.
+
+(* The simulation theorem.  For every program the strict resolver accepts (every name resolves, no lambda
+   captures a comprehension variable), the slot machine and the reference interpreter produce the same
+   transcript and the same outcome with the same fuel, unless the reference run fails with `Unbound`
+   (a variable read before its first assignment: the machine may then see the stale content of a
+   comprehension slot, see ex_compr_stale_slot in SlotSem.v). *)
+Theorem slots_sim_strict : forall fuel prog sp,
+  resolve_prog_strict prog = Some sp ->
+  (forall ln, snd (run_program fuel prog) <> Failed Unbound ln) ->
+  run_slot_program fuel sp = run_program fuel prog.
+Proof.
+  intros fuel prog sp Hres Hnu. unfold resolve_prog_strict, resolve_prog_gen in Hres.
+  destruct (omapS (cstmt true (module_names prog) module_scope) 0 prog) as [[body k]|] eqn:Ec; [|discriminate].
+  inversion Hres; subst sp. clear Hres.
+  unfold run_program in *. unfold run_slot_program. cbn [sp_body].
+  set (names := Sem.dedup (body_names prog)) in *. set (mods := module_names prog) in *.
+  destruct (alloc_cells_spec names empty_state) as (genv & Ea & Hf & Hs). cbn [cells empty_state length] in Hs.
+  unfold bind in *. rewrite Ea in *.
+  set (s0 := {| lists := lists empty_state; dicts := dicts empty_state; cells := cells empty_state ++ repeat None (length names);
+                clos := clos empty_state; out := out empty_state |}) in *.
+  set (t0 := init_sstate {| sp_mods := mods; sp_nslots := k; sp_body := body |}).
+  assert (Hnd : NoDup (map snd genv)) by (rewrite Hs; apply seq_NoDup).
+  assert (Hin : forall x, In x mods <-> In x names).
+  { intros x. unfold mods, names. rewrite Proofs.module_names_spec, sem_dedup_In. tauto. }
+  assert (Hgm : forall x, sidx x mods = None -> lookup x genv = None).
+  { intros x E. apply lookup_none_notin. rewrite Hf. intros H. apply Hin in H. apply sidx_none in E. contradiction. }
+  assert (G0 : GInv genv mods no_rho s0 t0).
+  { constructor; try reflexivity; try (intros; contradiction).
+    - intros a Ha. rewrite Hs in Ha. apply in_seq in Ha. cbn [s0 cells empty_state app]. rewrite repeat_length. lia.
+    - intros x j Ej. assert (Hx : In x names) by (apply Hin; apply sidx_nth in Ej; eapply nth_error_In; eauto).
+      destruct (lookup_seq_some x names genv _ _ Hf Hs Hx) as (a & La & Ha). exists a, None. split; [exact La|]. split.
+      + cbn [s0 cells empty_state app]. apply nth_error_repeat. lia.
+      + cbn [t0 init_sstate smods sp_mods]. apply nth_error_repeat. eapply sidx_lt; eauto.
+    - intros c cl scl H. destruct c; discriminate. }
+  assert (F0 : FrameRel genv genv module_scope no_rho s0 t0).
+  { constructor.
+    - exact Hnd.
+    - intros a Ha. rewrite Hs in Ha. apply in_seq in Ha. cbn [s0 cells empty_state app]. rewrite repeat_length. lia.
+    - intros x y i k0 k1 H. discriminate.
+    - intros x. cbn. reflexivity. }
+  pose proof (sim_block genv mods Hnd Hgm fuel module_scope 0 prog body k genv Ec no_rho s0 t0 G0 F0) as H.
+  unfold rres in H. fold t0.
+  destruct (run_block (exec fuel genv) prog s0) as [c s1|e l s1|].
+  - destruct (srun_block (sexec fuel) body t0) as [c' t1|?|]; try contradiction.
+    destruct H as [_ (r1 & G1 & _)]. rewrite (g_out _ _ _ _ _ G1). reflexivity.
+  - destruct (is_unbound e) eqn:Eu.
+    + destruct e; try discriminate. exfalso. apply (Hnu l). reflexivity.
+    + destruct (srun_block (sexec fuel) body t0) as [|e' l' t1|]; try contradiction.
+      destruct H as (<- & <- & Ho). rewrite Ho. reflexivity.
+  - destruct (srun_block (sexec fuel) body t0); try contradiction. reflexivity.
+Qed.
+
+(* ================================================================================================================ *)
+(* the strict resolver only refuses more programs: what it produces is what the compiler's resolver produces *)
+Section ExprInd.
+  Variables (P : expr -> Prop) (PC : clause -> Prop) (PP : param -> Prop) (PT : target -> Prop).
+  Definition optP (o : option expr) : Prop := match o with Some e => P e | None => True end.
+  Hypothesis HNone : P ENone.
+  Hypothesis HBool : forall b, P (EBool b).
+  Hypothesis HInt : forall z, P (EInt z).
+  Hypothesis HStr : forall s, P (EStr s).
+  Hypothesis HVar : forall x, P (EVar x).
+  Hypothesis HTuple : forall es, Forall P es -> P (ETuple es).
+  Hypothesis HList : forall es, Forall P es -> P (EList es).
+  Hypothesis HDict : forall kvs, Forall (fun kv => P (fst kv) /\ P (snd kv)) kvs -> P (EDict kvs).
+  Hypothesis HUn : forall o a, P a -> P (EUn o a).
+  Hypothesis HBin : forall o a b, P a -> P b -> P (EBin o a b).
+  Hypothesis HAnd : forall a b, P a -> P b -> P (EAnd a b).
+  Hypothesis HOr : forall a b, P a -> P b -> P (EOr a b).
+  Hypothesis HIf : forall c t f, P c -> P t -> P f -> P (EIf c t f).
+  Hypothesis HIndex : forall a b, P a -> P b -> P (EIndex a b).
+  Hypothesis HSlice : forall a lo hi st, P a -> optP lo -> optP hi -> optP st -> P (ESlice a lo hi st).
+  Hypothesis HCall : forall f args kwargs star dstar, P f -> Forall P args -> Forall (fun kv => P (snd kv)) kwargs ->
+                       optP star -> optP dstar -> P (ECall f args kwargs star dstar).
+  Hypothesis HMeth : forall r m args kwargs, P r -> Forall P args -> Forall (fun kv => P (snd kv)) kwargs -> P (EMeth r m args kwargs).
+  Hypothesis HLambda : forall ps body, Forall PP ps -> P body -> P (ELambda ps body).
+  Hypothesis HListComp : forall e cls, P e -> Forall PC cls -> P (EListComp e cls).
+  Hypothesis HDictComp : forall k v cls, P k -> P v -> Forall PC cls -> P (EDictComp k v cls).
+  Hypothesis HCFor : forall t e, PT t -> P e -> PC (CFor t e).
+  Hypothesis HCIf : forall e, P e -> PC (CIf e).
+  Hypothesis HPNormal : forall x d, optP d -> PP (PNormal x d).
+  Hypothesis HPArgs : forall x, PP (PArgs x).
+  Hypothesis HPKwargs : forall x, PP (PKwargs x).
+  Hypothesis HTVar : forall x, PT (TVar x).
+  Hypothesis HTTuple : forall ts, Forall PT ts -> PT (TTuple ts).
+  Hypothesis HTIndex : forall a i, P a -> P i -> PT (TIndex a i).
+
+  Fixpoint expr_ind' (e : expr) : P e :=
+    let fl := fix fl (l : list expr) : Forall P l :=
+                match l with [] => Forall_nil _ | x :: r => Forall_cons x (expr_ind' x) (fl r) end in
+    let fkw := fix fkw (l : list (string * expr)) : Forall (fun kv => P (snd kv)) l :=
+                 match l with [] => Forall_nil _ | x :: r => Forall_cons x (expr_ind' (snd x)) (fkw r) end in
+    let fo := fun (o : option expr) => match o return optP o with Some x => expr_ind' x | None => Logic.I end in
+    let fc := fix fc (l : list clause) : Forall PC l :=
+                match l with [] => Forall_nil _ | x :: r => Forall_cons x (clause_ind' x) (fc r) end in
+    match e with
+    | ENone => HNone | EBool b => HBool b | EInt z => HInt z | EStr s => HStr s | EVar x => HVar x
+    | ETuple es => HTuple es (fl es)
+    | EList es => HList es (fl es)
+    | EDict kvs => HDict kvs ((fix fd (l : list (expr * expr)) : Forall (fun kv => P (fst kv) /\ P (snd kv)) l :=
+                                 match l with [] => Forall_nil _
+                                 | x :: r => Forall_cons x (conj (expr_ind' (fst x)) (expr_ind' (snd x))) (fd r) end) kvs)
+    | EUn o a => HUn o a (expr_ind' a)
+    | EBin o a b => HBin o a b (expr_ind' a) (expr_ind' b)
+    | EAnd a b => HAnd a b (expr_ind' a) (expr_ind' b)
+    | EOr a b => HOr a b (expr_ind' a) (expr_ind' b)
+    | EIf c t f => HIf c t f (expr_ind' c) (expr_ind' t) (expr_ind' f)
+    | EIndex a b => HIndex a b (expr_ind' a) (expr_ind' b)
+    | ESlice a lo hi st => HSlice a lo hi st (expr_ind' a) (fo lo) (fo hi) (fo st)
+    | ECall f args kwargs star dstar => HCall f args kwargs star dstar (expr_ind' f) (fl args) (fkw kwargs) (fo star) (fo dstar)
+    | EMeth r m args kwargs => HMeth r m args kwargs (expr_ind' r) (fl args) (fkw kwargs)
+    | ELambda ps body => HLambda ps body ((fix fp (l : list param) : Forall PP l :=
+                                             match l with [] => Forall_nil _ | x :: r => Forall_cons x (param_ind' x) (fp r) end) ps)
+                                 (expr_ind' body)
+    | EListComp e cls => HListComp e cls (expr_ind' e) (fc cls)
+    | EDictComp k v cls => HDictComp k v cls (expr_ind' k) (expr_ind' v) (fc cls)
+    end
+  with clause_ind' (c : clause) : PC c :=
+    match c with
+    | CFor t e => HCFor t e (target_ind'' t) (expr_ind' e)
+    | CIf e => HCIf e (expr_ind' e)
+    end
+  with param_ind' (p : param) : PP p :=
+    match p with
+    | PNormal x d => HPNormal x d (match d return optP d with Some e => expr_ind' e | None => Logic.I end)
+    | PArgs x => HPArgs x
+    | PKwargs x => HPKwargs x
+    end
+  with target_ind'' (t : target) : PT t :=
+    match t with
+    | TVar x => HTVar x
+    | TTuple ts => HTTuple ts ((fix ft (l : list target) : Forall PT l :=
+                                  match l with [] => Forall_nil _ | x :: r => Forall_cons x (target_ind'' x) (ft r) end) ts)
+    | TIndex a i => HTIndex a i (expr_ind' a) (expr_ind' i)
+    end.
+End ExprInd.
+
+Section StmtInd'.
+  Variable P : stmt -> Prop.
+  Hypothesis H_if : forall ln c th el, Forall P th -> Forall P el -> P (SIf ln c th el).
+  Hypothesis H_for : forall ln t e body, Forall P body -> P (SFor ln t e body).
+  Hypothesis H_def : forall ln name ps body, Forall P body -> P (SDef ln name ps body).
+  Hypothesis H_other : forall s, match s with SIf _ _ _ _ | SFor _ _ _ _ | SDef _ _ _ _ => False | _ => True end -> P s.
+  Fixpoint stmt_ind' (s : stmt) : P s :=
+    let G := fix G (l : list stmt) : Forall P l :=
+               match l with [] => Forall_nil P | a :: r => Forall_cons a (stmt_ind' a) (G r) end in
+    match s with
+    | SIf ln c th el => H_if ln c th el (G th) (G el)
+    | SFor ln t e body => H_for ln t e body (G body)
+    | SDef ln name ps body => H_def ln name ps body (G body)
+    | SExpr ln e => H_other (SExpr ln e) Logic.I
+    | SAssign ln t e => H_other (SAssign ln t e) Logic.I
+    | SAug ln t o e => H_other (SAug ln t o e) Logic.I
+    | SBreak ln => H_other (SBreak ln) Logic.I
+    | SContinue ln => H_other (SContinue ln) Logic.I
+    | SReturn ln e => H_other (SReturn ln e) Logic.I
+    | SPass ln => H_other (SPass ln) Logic.I
+    end.
+End StmtInd'.
+
+Section StrictMono.
+  Variable mods : list string.
+  Notation cT := (cexpr true mods).
+  Notation cF := (cexpr false mods).
+
+  Lemma omapS_mono {X Y} (f g : scope -> nat -> X -> option (Y * nat)) l sc :
+    Forall (fun x => forall sc k r, f sc k x = Some r -> g sc k x = Some r) l ->
+    forall k r, omapS (f sc) k l = Some r -> omapS (g sc) k l = Some r.
+  Proof.
+    intros F. induction F as [|x l Hx _ IH]; intros k r H; cbn [omapS] in *; [exact H|].
+    destruct (f sc k x) as [[y k1]|] eqn:E; [|discriminate]. rewrite (Hx _ _ _ E).
+    destruct (omapS (f sc) k1 l) as [[ys k2]|] eqn:E2; [|discriminate]. rewrite (IH _ _ E2). exact H.
+  Qed.
+
+  Lemma kw_mono (l : list (string * expr)) sc :
+    Forall (fun kv => forall sc k r, cT sc k (snd kv) = Some r -> cF sc k (snd kv) = Some r) l ->
+    forall k r,
+      omapS (fun k kv => match cT sc k (snd kv) with Some (v, k') => Some ((fst kv, v), k') | None => None end) k l = Some r ->
+      omapS (fun k kv => match cF sc k (snd kv) with Some (v, k') => Some ((fst kv, v), k') | None => None end) k l = Some r.
+  Proof.
+    intros F. induction F as [|x l Hx _ IH]; intros k r H; cbn [omapS] in *; [exact H|].
+    destruct (cT sc k (snd x)) as [[y k1]|] eqn:E; [|discriminate]. rewrite (Hx _ _ _ E).
+    match type of H with match ?o with _ => _ end = _ => destruct o as [[ys k2]|] eqn:E2; [|discriminate] end.
+    rewrite (IH _ _ E2). exact H.
+  Qed.
+
+  Lemma dict_mono (l : list (expr * expr)) sc :
+    Forall (fun kv => (forall sc k r, cT sc k (fst kv) = Some r -> cF sc k (fst kv) = Some r) /\
+                      (forall sc k r, cT sc k (snd kv) = Some r -> cF sc k (snd kv) = Some r)) l ->
+    forall k r,
+      omapS (fun k kv => match cT sc k (fst kv) with
+                         | Some (a, k1) => match cT sc k1 (snd kv) with Some (b, k2) => Some ((a, b), k2) | None => None end
+                         | None => None end) k l = Some r ->
+      omapS (fun k kv => match cF sc k (fst kv) with
+                         | Some (a, k1) => match cF sc k1 (snd kv) with Some (b, k2) => Some ((a, b), k2) | None => None end
+                         | None => None end) k l = Some r.
+  Proof.
+    intros F. induction F as [|x l [Hx1 Hx2] _ IH]; intros k r H; cbn [omapS] in *; [exact H|].
+    destruct (cT sc k (fst x)) as [[a k1]|] eqn:E; [|discriminate]. rewrite (Hx1 _ _ _ E).
+    destruct (cT sc k1 (snd x)) as [[b k2]|] eqn:E1; [|discriminate]. rewrite (Hx2 _ _ _ E1).
+    match type of H with match ?o with _ => _ end = _ => destruct o as [[ys k3]|] eqn:E2; [|discriminate] end.
+    rewrite (IH _ _ E2). exact H.
+  Qed.
+
+  Lemma copt_mono o sc :
+    match o with Some e => forall sc k r, cT sc k e = Some r -> cF sc k e = Some r | None => True end ->
+    forall k r, copt (cT sc) k o = Some r -> copt (cF sc) k o = Some r.
+  Proof.
+    destruct o as [e|]; intros Ho k r H; cbn [copt] in *; [|exact H].
+    destruct (cT sc k e) as [[e' k1]|] eqn:E; [|discriminate]. rewrite (Ho _ _ _ E). exact H.
+  Qed.
+
+  Lemma compr_scope_mono sc k names capt r :
+    compr_scope true sc k names capt = Some r -> compr_scope false sc k names capt = Some r.
+  Proof. unfold compr_scope. cbn [andb]. destruct (existsb capt names); [discriminate|auto]. Qed.
+
+  Ltac conv E :=
+    first [ apply compr_scope_mono in E
+          | eapply omapS_mono in E; [|eassumption]
+          | eapply kw_mono in E; [|eassumption]
+          | eapply dict_mono in E; [|eassumption]
+          | eapply copt_mono in E; [|eassumption]
+          | match goal with IH : _ |- _ => apply IH in E end ].
+  Ltac mono H :=
+    cbv zeta in H |- *;
+    repeat match type of H with
+           | match ?x with Some _ => _ | None => _ end = Some _ =>
+               let E := fresh "E" in
+               destruct x as [?|] eqn:E; [|discriminate H];
+               repeat match goal with q : (_ * _)%type |- _ => destruct q end;
+               try (conv E; rewrite E)
+           | (if ?b then _ else _) = Some _ => destruct b; [|discriminate H]
+           end;
+    exact H.
+
+  Definition PCm (c : clause) : Prop :=
+    match c with
+    | CFor t e => (forall sc k r, ctarget true mods sc k t = Some r -> ctarget false mods sc k t = Some r) /\
+                  (forall sc k r, cT sc k e = Some r -> cF sc k e = Some r)
+    | CIf e => forall sc k r, cT sc k e = Some r -> cF sc k e = Some r
+    end.
+  Lemma clause_mono c : PCm c -> forall sc k r, cclause true mods sc k c = Some r -> cclause false mods sc k c = Some r.
+  Proof.
+    destruct c as [t e|e]; cbn [PCm].
+    - intros [Ht He] sc k r Hc. rewrite cc_CFor in *. mono Hc.
+    - intros He sc k r Hc. rewrite cc_CIf in *. mono Hc.
+  Qed.
+
+  Lemma strict_expr e : forall sc k r, cT sc k e = Some r -> cF sc k e = Some r.
+  Proof.
+    induction e using expr_ind' with
+      (PC := PCm)
+      (PP := fun p => forall sc k r, cparam true mods sc k p = Some r -> cparam false mods sc k p = Some r)
+      (PT := fun t => forall sc k r, ctarget true mods sc k t = Some r -> ctarget false mods sc k t = Some r);
+      try (intros sc0 k0 r0 Hc).
+    - exact Hc.
+    - exact Hc.
+    - exact Hc.
+    - exact Hc.
+    - exact Hc.
+    - rewrite ce_ETuple in *. mono Hc.
+    - rewrite ce_EList in *. mono Hc.
+    - rewrite ce_EDict in *. mono Hc.
+    - rewrite ce_EUn in *. mono Hc.
+    - rewrite ce_EBin in *. mono Hc.
+    - rewrite ce_EAnd in *. mono Hc.
+    - rewrite ce_EOr in *. mono Hc.
+    - rewrite ce_EIf in *. mono Hc.
+    - rewrite ce_EIndex in *. mono Hc.
+    - rewrite ce_ESlice in *. mono Hc.
+    - rewrite ce_ECall in *. mono Hc.
+    - rewrite ce_EMeth in *. mono Hc.
+    - rewrite ce_ELambda in *. mono Hc.
+    - rewrite ce_EListComp in *. destruct cls as [|[t0 e0|c0] rr]; try discriminate.
+      match goal with F : Forall _ (_ :: _) |- _ => inversion F as [|? ? Hc0 Hr0]; subst end. cbn [PCm] in Hc0. destruct Hc0 as [Ht0 He0].
+      assert (Hr1 : Forall (fun c => forall sc k r, cclause true mods sc k c = Some r -> cclause false mods sc k c = Some r) rr)
+        by (eapply Forall_impl; [|exact Hr0]; apply clause_mono).
+      mono Hc.
+    - rewrite ce_EDictComp in *. destruct cls as [|[t0 e0|c0] rr]; try discriminate.
+      match goal with F : Forall _ (_ :: _) |- _ => inversion F as [|? ? Hc0 Hr0]; subst end. cbn [PCm] in Hc0. destruct Hc0 as [Ht0 He0].
+      assert (Hr1 : Forall (fun c => forall sc k r, cclause true mods sc k c = Some r -> cclause false mods sc k c = Some r) rr)
+        by (eapply Forall_impl; [|exact Hr0]; apply clause_mono).
+      mono Hc.
+    - cbn [PCm]. split; assumption.
+    - auto.
+    - rewrite cp_eq in *. destruct d as [d|]; [|exact Hc]. cbn [optP] in *. mono Hc.
+    - exact Hc.
+    - exact Hc.
+    - exact Hc.
+    - rewrite ct_TTuple in *. mono Hc.
+    - rewrite ct_TIndex in *. mono Hc.
+  Qed.
+  Lemma param_mono p : forall sc k r, cparam true mods sc k p = Some r -> cparam false mods sc k p = Some r.
+  Proof.
+    intros sc k r H. rewrite cp_eq in *. destruct p as [x [d|]|x|x]; try exact H.
+    destruct (cT sc k d) as [[d' k1]|] eqn:E; [|discriminate]. rewrite (strict_expr _ _ _ _ E). exact H.
+  Qed.
+  Lemma target_mono t : forall sc k r, ctarget true mods sc k t = Some r -> ctarget false mods sc k t = Some r.
+  Proof.
+    induction t as [x|ts IH|a i] using target_ind'; intros sc k r H.
+    - exact H.
+    - rewrite ct_TTuple in *. mono H.
+    - rewrite ct_TIndex in *. pose proof strict_expr as Hse. mono H.
+  Qed.
+
+  Lemma strict_stmt st : forall sc k r, cstmt true mods sc k st = Some r -> cstmt false mods sc k st = Some r.
+  Proof.
+    pose proof strict_expr as Hse. pose proof target_mono as Htm.
+    assert (Hpm : forall ps, Forall (fun p => forall sc k r, cparam true mods sc k p = Some r -> cparam false mods sc k p = Some r) ps)
+      by (intros ps; apply Forall_forall; intros p _; apply param_mono).
+    induction st as [ln c th el IHth IHel|ln t e body IHb|ln name ps body IHb|st Hst] using stmt_ind'; intros sc k r H.
+    - cbn [cstmt] in *. mono H.
+    - cbn [cstmt] in *. mono H.
+    - cbn [cstmt] in *. pose proof (Hpm ps) as Hps. mono H.
+    - destruct st; try contradiction; cbn [cstmt] in *; try exact H; try (mono H).
+      destruct e; [mono H|exact H].
+  Qed.
+
+End StrictMono.
+
+Lemma strict_prog prog sp : resolve_prog_strict prog = Some sp -> resolve_prog prog = Some sp.
+Proof.
+  unfold resolve_prog_strict, resolve_prog, resolve_prog_gen.
+  destruct (omapS (cstmt true (module_names prog) module_scope) 0 prog) as [[body k]|] eqn:E; [|discriminate].
+  intros H.
+  assert (E' : omapS (cstmt false (module_names prog) module_scope) 0 prog = Some (body, k)).
+  { eapply (omapS_mono (cstmt true (module_names prog)) (cstmt false (module_names prog))); [|exact E].
+    apply Forall_forall. intros st _. apply strict_stmt. }
+  rewrite E'. exact H.
+Qed.
+
+(* the simulation theorem in terms of the compiler's resolver and the boolean fragment predicate *)
+Theorem slots_sim_partial : forall fuel prog sp,
+  resolve_prog prog = Some sp ->
+  compr_vars_uncaptured prog = true ->
+  (forall ln, snd (run_program fuel prog) <> Failed Unbound ln) ->
+  run_slot_program fuel sp = run_program fuel prog.
+Proof.
+  intros fuel prog sp Hr Hc Hnu. unfold compr_vars_uncaptured in Hc.
+  destruct (resolve_prog_strict prog) as [sp'|] eqn:Es; [|discriminate].
+  pose proof (strict_prog _ _ Es) as Hr'. assert (sp' = sp) by congruence. subst sp'.
+  apply slots_sim_strict; assumption.
+Qed.
+
+(* The statement without the two restrictions is FALSE for this machine (which keeps the cell / the stale value
+   of a comprehension variable in its frame slot, as eval/runtime/evaluator.rs does):
+     forall fuel prog sp, resolve_prog prog = Some sp -> run_slot_program fuel sp = run_program fuel prog.   (slots_sim)
+   The witnesses are SlotSem.ex_compr_cell_shared (a lambda captures a comprehension variable; neither run fails) and
+   SlotSem.ex_compr_stale_slot (the reference fails with Unbound, the machine reads the stale slot). *)
+Theorem slots_sim_refuted :
+  exists fuel prog sp, resolve_prog prog = Some sp /\
+    (forall ln, snd (run_program fuel prog) <> Failed Unbound ln) /\
+    run_slot_program fuel sp <> run_program fuel prog.
+Proof.
+  exists 60, ex_compr_cell_shared.
+  destruct (resolve_prog ex_compr_cell_shared) as [sp|] eqn:E; [|vm_compute in E; discriminate E].
+  exists sp. split; [reflexivity|]. split.
+  - rewrite ex_compr_cell_shared_ref. cbn. discriminate.
+  - pose proof ex_compr_cell_shared_slots as H. unfold run_resolved in H. rewrite E in H. cbn [option_map] in H.
+    injection H as H1. rewrite H1, ex_compr_cell_shared_ref. discriminate.
+Qed.
+
+Theorem slots_sim_unbound_needed :
+  exists fuel prog sp, resolve_prog prog = Some sp /\ compr_vars_uncaptured prog = true /\
+    run_slot_program fuel sp <> run_program fuel prog.
+Proof.
+  exists 60, ex_compr_stale_slot.
+  destruct (resolve_prog ex_compr_stale_slot) as [sp|] eqn:E; [|vm_compute in E; discriminate E].
+  exists sp. split; [reflexivity|]. split; [vm_compute; reflexivity|].
+  pose proof ex_compr_stale_slot_slots as H. unfold run_resolved in H. rewrite E in H. cbn [option_map] in H.
+  injection H as H1. rewrite H1, ex_compr_stale_slot_ref. discriminate.
+Qed.
+
+(* the theorem applies to the test programs of SlotSem.v *)
+Example slots_sim_applies_capture_loop : compr_vars_uncaptured ex_capture_loop = true.
+Proof. vm_compute. reflexivity. Qed.
+Example slots_sim_applies_compr_shadow : compr_vars_uncaptured ex_compr_shadow = true.
+Proof. vm_compute. reflexivity. Qed.
+Example slots_sim_applies_recursion : compr_vars_uncaptured ex_recursion = true.
+Proof. vm_compute. reflexivity. Qed.
+
+(* Reproduction on the real evaluator (harness/src/bin/eval.rs, Dialect::AllOptionsInternal, unchanged /repo):
+     ex_compr_cell_shared  -> transcript ["[i1,i1]"]      (reference and Python: [0, 1])
+     ex_compr_stale_slot   -> transcript ["[[i2],[i2]]"]  (reference and Python: the second evaluation fails, b is unbound)
+     ex_capture_loop, ex_compr_shadow, ex_recursion (without its failing last lines) -> the transcripts of the reference.
+   The same two programs at module level (without the enclosing def) behave the same way: the comprehension variables then
+   live in the slots of the module's own frame. *)
